@@ -83,6 +83,12 @@ class Hist:
         self.rig.sim.set_block(apply_changes(self.rig.sim.block, changes))
         self.rig.sim.say(self.P.report_changes(self.rig.sim.sock, changes, parms=self.client_parms), self.client_parms)
         self.ops.append(("STATP", len(changes)))
+        if r.random() < 0.12:
+            # the spa sends the very same update again, byte for byte (each is a message of its own:
+            # applied again - idempotent - and acknowledged again)
+            self.rig.sim.say(self.P.report_changes(self.rig.sim.sock, changes, parms=self.client_parms), self.client_parms)
+            self.ops.append(("STATP-again", len(changes)))
+            self.sh.count("statp_sent_twice_verbatim")
         self.sh.count("statp_sent")
         self.sh.see("statp_sizes", len(changes))
 
@@ -201,8 +207,10 @@ class Hist:
             sh.count("histories_matched")
         # acknowledgements: one STATQ per delivered STATP, protocol range, addressed back
         acks = [d for d in w.net.dgrams[d0:] if d.dir == "c2s" and d.verb == "STATQ"]
-        if len(acks) != len(puts):
-            sh.violation("C05:async:ack-count", f"{len(puts)} partial updates delivered, {len(acks)} acknowledgements sent", {"history": self.ops[-12:]})
+        # delivered = datagrams the network handed to the client's endpoint (not: what its queue kept)
+        delivered = [d for d in w.net.dgrams[d0:] if d.dir == "s2c" and d.verb == "STATP" and d.fate]
+        if len(acks) != len(puts) or len(acks) != len(delivered):
+            sh.violation("C05:async:ack-count", f"{len(delivered)} partial updates delivered to the endpoint ({len(puts)} reached the receive queue unwrapped), {len(acks)} acknowledgements sent", {"history": self.ops[-12:]})
         cid, sid = self.ids
         for a in acks:
             inner_at = a.data.find(b"<DATAS>") + 7
@@ -241,6 +249,19 @@ async def run_history(sh, rig, r, mode, nev):
                 await h.refresh(*r.choice([(256, 479), (0, 1024), (280, 60)]))
             elif x < 0.85:
                 h.silent()
+            elif x < 0.90:
+                # refresh, an update inside the refreshed range, the spa silently goes back to what it
+                # was, the same refresh again (identical content to the first): the update must be gone
+                rg = r.choice([(256, 479), (0, 1024)])
+                await h.refresh(*rg)
+                await rig.quiesce(settle=0.25)
+                before = rig.sim.block
+                h.statp(r.choice([1, 2]))
+                await rig.quiesce(settle=0.25)
+                rig.sim.set_block(before)
+                h.ops.append(("SILENT-REVERT",))
+                sh.count("silent_reverts_between_identical_refreshes")
+                await h.refresh(*rg)
             else:
                 await h.refresh(*r.choice([(256, 479), (0, 1024), (290, 39)]))
             await rig.quiesce(settle=0.25)
@@ -318,6 +339,8 @@ def main(tier, seed):
     run.need(run.counters.get("acks_ok", 0) > 200, "too few acknowledgements observed")
     run.need(run.counters.get("sim_do_set", 0) > 20 and run.counters.get("silent_spa_changes", 0) > 20 and run.counters.get("refreshes", 0) > 20, "history ingredients missing")
     run.need(run.counters.get("long_connection_rounds", 0) >= 10, "the long-lived connection (two sequence wrap-arounds of acknowledgements) was not driven")
+    run.need(run.counters.get("statp_sent_twice_verbatim", 0) > 20, "no partial update was sent twice verbatim")
+    run.need(run.counters.get("silent_reverts_between_identical_refreshes", 0) > 10, "no update between two identical refreshes")
     run.need("0" in run.sets.get("statp_sizes", set()), "no zero-change partial update sent")
     run.need(run.counters.get("statp_with_restoring_record", 0) > 20, "no partial update with a record restoring the previous value")
     return run.finish(
